@@ -21,7 +21,8 @@ RULE = (
     "distinct by hash of the file bytes"
 )
 ASSUMPTIONS = [
-    "not asserted: blank lines between v1 fields, single-quoted OFX declaration, bodies not starting with '<', non-ASCII header bytes, contradictory ENCODING/CHARSET pairs",
+    "not asserted: blank lines between v1 fields, single-quoted OFX declaration, bodies not starting with '<', non-ASCII header bytes",
+    "the declared character set is the CHARSET field (ISO-8859-1 / 1252 / NONE = UTF-8) for every ENCODING value",
     "lenient regime (whitespace after the body) compares after right-stripping both sides",
 ]
 
@@ -31,6 +32,7 @@ SEPS = ["\r\n", "\n", "\r", ""]
 GAPS = ["", " ", "\n", "\r\n", "\r", "\r\n\r\n", "\n\n\n"]
 UID = st.text("ABCDEFGHIJKLMNOPQRSTUVWXYZabcdefghijklmnopqrstuvwxyz0123456789_-", min_size=1, max_size=36)
 
+ALL_PAIRS = [(e, c) for e in ("USASCII", "UNICODE", "UTF-8") for c in ("ISO-8859-1", "1252", "NONE")]
 CP1252_CHARS = "".join(bytes([b]).decode("cp1252") for b in range(0x80, 0x100) if b not in (0x81, 0x8D, 0x8F, 0x90, 0x9D))
 LATIN1_CHARS = "".join(chr(c) for c in range(0x80, 0x100))
 
@@ -53,7 +55,8 @@ def body_st(charset, ascii_only=False):
 
 @st.composite
 def v1_case(draw):
-    enc, cs = draw(st.sampled_from([("USASCII", "ISO-8859-1"), ("USASCII", "1252"), ("USASCII", "NONE"), ("UNICODE", "NONE"), ("UTF-8", "NONE")]))
+    # every ENCODING x CHARSET combination of the two field domains: the character set is what CHARSET declares
+    enc, cs = draw(st.sampled_from(ALL_PAIRS))
     vals = {
         "OFXHEADER": "100",
         "DATA": "OFXSGML",
@@ -75,7 +78,7 @@ def v1_case(draw):
     blanks = draw(st.lists(st.sampled_from(["", "", " ", "\t", "  ", " \t "]), min_size=9, max_size=9))
     lead = draw(st.sampled_from(["", "", "\n", "\r\n", "\n\n", "\r\n\r\n\r\n", "  \n", "\n" * 6]))
     gap = draw(st.sampled_from(GAPS))
-    body = draw(body_st(cs, ascii_only=(enc == "USASCII" and cs == "NONE")))
+    body = draw(body_st(cs, ascii_only=(enc == "USASCII" and cs == "NONE" and draw(st.booleans()))))
     trail = draw(st.sampled_from(["", "", "", "\n", "\r\n", " \n\n"]))
     return {"kind": "v1", "vals": vals, "has_comp": has_comp, "seps": seps, "blanks": blanks, "lead": lead, "gap": gap, "body": body, "trail": trail}
 
@@ -234,7 +237,7 @@ def _enum_worker(job):
     s = H.Stats()
     for sep, gap, (enc, cs), comp, lead in job:
         bodies = {"ISO-8859-1": "<A>caf\xe9 \x85\xa0</A>", "1252": "<A>€’\xe9</A>", "NONE": "<A>€漢</A>"}
-        body = bodies[cs] if not (enc == "USASCII" and cs == "NONE") else "<A>x</A>"
+        body = bodies[cs]
         c = {
             "kind": "v1",
             "vals": {"OFXHEADER": "100", "DATA": "OFXSGML", "VERSION": "102", "SECURITY": "NONE", "ENCODING": enc, "CHARSET": cs, "COMPRESSION": "NONE", "OLDFILEUID": "NONE", "NEWFILEUID": "uid-1_Z"},
@@ -254,7 +257,7 @@ def _enum_worker(job):
 
 
 def run(ctx):
-    pairs = [("USASCII", "ISO-8859-1"), ("USASCII", "1252"), ("USASCII", "NONE"), ("UNICODE", "NONE"), ("UTF-8", "NONE")]
+    pairs = ALL_PAIRS
     prod = list(itertools.product(SEPS, GAPS, pairs, (True, False), ("", "\n", "\r\n\r\n")))
     ctx.pmap(_enum_worker, [prod[i::16] for i in range(16)])
     ctx.note("enumerated_layout_product", len(prod))
